@@ -12,7 +12,7 @@
 (*   [ev, r, k, n, b, rs]   (event, run, kind, number, flag, list of runs) *)
 (* Several sessions are concatenated with "reset" lines.                   *)
 (***************************************************************************)
-EXTENDS ATPServerEnv, Json, IOUtils
+EXTENDS ATPClientEnv, Json, IOUtils
 
 Trace == ndJsonDeserialize(IOEnv.VERIF_TRACE)
 VARIABLE l
@@ -74,7 +74,7 @@ TRegister ==
     /\ IF Ev.k = "closed" THEN cpc'[R] = "ret"
        ELSE /\ cpc'[R] = "sendlock"
             /\ Ev.n = Cardinality({q \in Runs : entries'[q].st # "none"})
-            /\ rl'
+            /\ Ev.b = ~rl /\ rl'
 TSend ==
     /\ Is("c.send")
     /\ CASE Ev.k = "ws" -> SendLock(R)
@@ -105,7 +105,7 @@ TDecode ==
     /\ Is("c.decode")
     /\ IF Ev.b THEN LoopDecodeErr
        ELSE /\ LoopDecode
-            /\ loop'.msg.t = MsgOfId(Ev.n)
+            /\ loop'.msg.t = MsgOfId(Ev.n) \/ (loop'.msg.t = "bad" /\ MsgOfId(Ev.n) = "junk")
             /\ loop'.msg.r = R
 TDeliver ==
     /\ Is("c.deliver") /\ LoopHandle
@@ -209,8 +209,24 @@ TEnvRead ==
     /\ s2c' = SubSeq(s2c, Ev.n + 1, Len(s2c))
     /\ UNCHANGED <<cvars, c2s, stdinClosed, outClosed, svars>>
 
+\* ------------------------------------------------------------------ scripted breaking server (C08 sessions)
+UnsolMsg(k, r) == CASE k = "err_server" -> Msg("err", NoRun, "server")
+                    [] k = "err_none" -> Msg("err", NoRun, "none")
+                    [] k = "err_step" -> Msg("err", NoRun, "step")
+                    [] k = "sig" -> Msg("sig", r, "")
+                    [] k = "wd_dup" -> Msg("wd", r, "dup")
+                    [] OTHER -> Msg("bad", NoRun, "")
+TFRead == Is("f.read") /\ Ev.n = 1 /\ FRead
+TFReply == Is("f.reply") /\ FReply(R, Ev.k) /\ Len(s2c') = Len(s2c) + 1
+TFUnsol == Is("f.unsol") /\ FUnsolicited(UnsolMsg(Ev.k, R))
+TFGarbage == Is("f.garbage") /\ FGarbage
+TFPartial == Is("f.partial") /\ FPartial(R)
+TFCloseOut == Is("f.close_out") /\ IF outClosed THEN UNCHANGED vars ELSE FClose
+TFCloseIn == Is("f.close_in") /\ IF stdinClosed THEN UNCHANGED vars ELSE FCloseIn
+
 TNext ==
     /\ \/ TReset \/ Silent \/ TEnvWrite \/ TEnvEOF \/ TEnvRead
+       \/ TFRead \/ TFReply \/ TFUnsol \/ TFGarbage \/ TFPartial \/ TFCloseOut \/ TFCloseIn
        \/ TExec \/ TRegister \/ TSend \/ TC2SWrite \/ TSent \/ TWait \/ TTake \/ TS2CRead \/ TDecode
        \/ TDeliver \/ TErrMsg \/ TUnknown \/ TSigFwd \/ TDeliverAll \/ TCheck \/ TLoopExit
        \/ TWBegin \/ TWExit \/ TCloseDone \/ TCloseRet
@@ -219,6 +235,7 @@ TNext ==
 TSpec == TInit /\ [][TNext]_tvars
 
 \* the properties of ATP.tla are evaluated in every state of every accepted trace
+TraceInvClientEnv == NoNilWake /\ FlagHonest /\ NoFabrication /\ FReturnsOnce
 TraceInv == NoNilWake /\ FlagHonest /\ Transparent /\ NoCrossTalk /\ WriterAtomic /\ NoCrash /\ OneTerminal
             /\ \A r \in Runs : rets[r] <= 1
 =============================================================================
